@@ -66,7 +66,7 @@ def _calls_in(body):
     return out
 
 
-def _inline_site(caller, bi, callee):
+def _inline_site(caller, bi, callee, untuple=False):
     """Replace the call terminating block bi of `caller` by a copy of `callee`."""
     blk = caller["blocks"][bi]
     call = blk["term"]
@@ -79,10 +79,23 @@ def _inline_site(caller, bi, callee):
         caller.setdefault("dbg", []).append(dd)
     sp = call.get("sp")
     # parameter passing
-    for i, a in enumerate(call.get("args", [])):
-        if i + 1 > callee["argc"]:
-            break
-        blk["stmts"].append({"k": "assign", "lhs": {"l": loff + 1 + i, "p": []}, "rv": {"k": "use", "a": a}, "sp": sp, "x": None, "inl": callee["path"]})
+    if untuple:
+        # closure call (rust-call ABI): argument 0 is the closure (environment), argument 1 the tuple of the real arguments
+        args = call.get("args", [])
+        if args:
+            blk["stmts"].append({"k": "assign", "lhs": {"l": loff + 1, "p": []}, "rv": {"k": "use", "a": args[0]}, "sp": sp, "x": None, "inl": callee["path"]})
+        if len(args) > 1:
+            tup = args[1].get("m") or args[1].get("c")
+            for i in range(callee["argc"] - 1):
+                if tup is None:
+                    break
+                fld = {"l": tup["l"], "p": list(tup.get("p", [])) + [{"f": i, "n": str(i), "ty": callee["locals"][2 + i]["ty"]}]}
+                blk["stmts"].append({"k": "assign", "lhs": {"l": loff + 2 + i, "p": []}, "rv": {"k": "use", "a": {"m": fld}}, "sp": sp, "x": None, "inl": callee["path"]})
+    else:
+        for i, a in enumerate(call.get("args", [])):
+            if i + 1 > callee["argc"]:
+                break
+            blk["stmts"].append({"k": "assign", "lhs": {"l": loff + 1 + i, "p": []}, "rv": {"k": "use", "a": a}, "sp": sp, "x": None, "inl": callee["path"]})
     dest, tgt, unw = call.get("dest"), call.get("t"), call.get("u")
     blk["term"] = {"k": "goto", "t": boff, "sp": sp, "x": None, "inl": callee["path"]}
     ret_blocks = []
@@ -95,7 +108,7 @@ def _inline_site(caller, bi, callee):
                 nb["stmts"].append({"k": "assign", "lhs": dest, "rv": {"k": "use", "a": {"m": {"l": loff, "p": []}}}, "sp": t.get("sp") or sp, "x": None, "inl": callee["path"]})
             nb["term"] = {"k": "goto", "t": tgt, "sp": t.get("sp"), "x": None} if tgt is not None else {"k": "unreachable", "sp": t.get("sp"), "x": None}
             if tgt is not None:
-                ret_blocks.append(nb)
+                ret_blocks.append(len(caller["blocks"]))     # index this block gets when appended below
         elif k == "resume" and unw is not None:
             nb["term"] = {"k": "goto", "t": unw, "sp": t.get("sp"), "x": None}
         else:
@@ -108,8 +121,30 @@ def _inline_site(caller, bi, callee):
     # a particular `return` of the helper just built.  If all returns jumped to one continuation block, that test would
     # see a merge of Ok and Err (and every fact established before an early `return Err(..)` would be lost).  Give each
     # return site its own copy of the continuation up to (and including) its first switch.
+    # statement-free `goto` blocks of the copy only hide where paths merge: bypass them
+    first_new = boff
+    for _ in range(4):
+        changed = False
+        for i in range(first_new, len(caller["blocks"])):
+            t = caller["blocks"][i].get("term") or {}
+            slots = []
+            if t.get("k") in ("goto", "call", "drop", "assert") and isinstance(t.get("t"), int):
+                slots.append("t")
+            if t.get("k") == "switch":
+                slots += [("tgts", n) for n in range(len(t.get("tgts", [])))] + ["other"]
+            for sl in slots:
+                cur = t[sl[0]][sl[1]] if isinstance(sl, tuple) else t[sl]
+                if not isinstance(cur, int) or cur < first_new or cur in ret_blocks:
+                    continue
+                tb = caller["blocks"][cur]
+                tt = tb.get("term") or {}
+                if not tb["stmts"] and tt.get("k") == "goto" and isinstance(tt.get("t"), int) and not tb.get("cleanup") and tt["t"] != cur:
+                    _retarget(t, sl, tt["t"])
+                    changed = True
+        if not changed:
+            break
     if tgt is not None:
-        heads = [caller["blocks"].index(nb) for nb in ret_blocks]
+        heads = list(ret_blocks)
         if len(heads) > 1:
             # several return blocks: each gets its own copy of the continuation
             chain = _switch_chain(caller, tgt)
@@ -118,8 +153,17 @@ def _inline_site(caller, bi, callee):
                     first = _clone_chain(caller, chain)
                     caller["blocks"][h]["term"]["t"] = first
         for h in heads:
-            # one return block reached from several `_0 = ..; goto ret` sites (how rustc lowers early returns)
+            # one return block reached from several `_0 = ..; goto ret` sites (how rustc lowers early returns), possibly
+            # through statement-free trampoline blocks
             preds = _preds(caller, h)
+            for _ in range(3):
+                if len(preds) == 1 and preds[0][1] == "t":
+                    pb = caller["blocks"][preds[0][0]]
+                    if not pb["stmts"] and (pb.get("term") or {}).get("k") == "goto" and not pb.get("cleanup"):
+                        h = preds[0][0]
+                        preds = _preds(caller, h)
+                        continue
+                break
             if len(preds) > 1:
                 chain = _switch_chain(caller, h)
                 if chain:
@@ -221,7 +265,7 @@ PASS_THROUGH = ("std::ops::Try::branch", "std::convert::From::from", "std::conve
                 "std::result::Result::<T, E>::is_err", "std::option::Option::<T>::is_some", "std::option::Option::<T>::is_none")
 
 
-def _switch_chain(body, start, limit=5):
+def _switch_chain(body, start, limit=7):
     """Blocks start, next, ... ending in the first `switch`, provided every block before it has a single normal
     successor and only passes the value along (goto, or a call from PASS_THROUGH). None if there is no such chain."""
     chain = []
@@ -478,3 +522,31 @@ def split_bool_merges(body, max_new=60):
             _retarget(body["blocks"][pi]["term"], slot, first)
             added += len(chain)
     return added
+
+
+FN_TRAIT_CALLS = ("std::ops::Fn::call", "std::ops::FnMut::call_mut", "std::ops::FnOnce::call_once")
+
+
+def inline_local_closure_calls(j, max_blocks=120):
+    """`let check = |fd| verify(root_id, fd); ... check(&next)?` -- a closure that is defined and called directly in
+    the same function is a local helper: its body is analysed inlined at the call (the closure body itself stays)."""
+    bodies = {b["path"]: b for b in j["bodies"]}
+    done = {}
+    for b in j["bodies"]:
+        if b["kind"] not in FN_KINDS and b["kind"] != "closure":
+            continue
+        for bi in range(len(b["blocks"])):
+            t = b["blocks"][bi].get("term") or {}
+            if t.get("k") != "call":
+                continue
+            f = t.get("f") or {}
+            if f.get("path") not in FN_TRAIT_CALLS or f.get("unres"):
+                continue
+            c = bodies.get(f.get("rpath"))
+            if c is None or c["kind"] != "closure" or c.get("parent") != b["path"] or len(c["blocks"]) > max_blocks:
+                continue
+            if any((x.get("term") or {}).get("k") == "call" and ((x["term"].get("f") or {}).get("rpath") == c["path"]) for x in c["blocks"]):
+                continue
+            _inline_site(b, bi, c, untuple=True)
+            done.setdefault(c["path"], []).append(b["path"])
+    return done
